@@ -146,9 +146,9 @@ def parseDBRow : SExp → Option NameLookups.DBRow
            decomp := { compat := ← asBool? compat, parts := ← parts.mapM asNat? } }
   | _ => none
 
-def ofExceptName : Except String Name → SExp
+def ofResName : NameLookups.Res Name → SExp
   | .ok n => .str n
-  | .error e => err e
+  | .raised e => err e
 
 open NameLookups in
 def lookRow (db : UniDB) (w : UData) (n : Name) : SExp :=
@@ -159,7 +159,7 @@ def lookRow (db : UniDB) (w : UData) (n : Name) : SExp :=
     .str (blockFor db w n false), .str (blockFor db w n true),
     ofOpt .str (closeRelativeFor db w n false), ofOpt .str (closeRelativeFor db w n true),
     ofOpt .str (openRelativeFor db w n false), ofOpt .str (openRelativeFor db w n true),
-    ofExceptName (decompositionBaseFor db w n false), ofExceptName (decompositionBaseFor db w n true),
+    ofResName (decompositionBaseFor db w n false), ofResName (decompositionBaseFor db w n true),
     ofBool (inFont w n)]
 
 open NameLookups in
@@ -186,7 +186,7 @@ def worldStep (s : DState) (w : UData) (line : SExp) : DState × SExp :=
     | some v =>
       match nameForForced w v with
       | .ok r => (s, tagged "ok" [ofOpt .str r])
-      | .error e => (s, err e)
+      | .raised e => (s, err e)
     | none => (s, .atom "bad-op")
   | .list [.atom "state"] =>
     (s, tagged "state" [
